@@ -158,6 +158,21 @@ def cases(tier, rng, ifaces):
             op = f'PROC {iface.name} 256 {hx(stream)} {",".join(map(str, sizes))}' + (' pend=1' if rng.random() < 0.3 else '')
             meta['kind'] = 'PROC-compound'
         out.append(Case(op, oracle, meta))
+    return out + payload_cases(rng, tier)
+
+
+def payload_cases(rng, tier):
+    """echo: SYST:A ; STR/BLK with a newline in the payload (relative, below SYST) ; BAR (relative) — through process, read boundary anywhere"""
+    out = []
+    msgs = [(b'SYST:A;STR "a\nb";BAR\n', ['6()', '9(str:610a62)', '7()']),
+            (b'SYST:A;BLK #13a\nb;BAR\nBAR\n', ['6()', '8(bytes:610a62)', '7()', '3()']),
+            (b"SYST:STR 'x\n\ny';A;BAR\n", ['9(str:780a0a79)', '6()', '7()']),
+            (b'SYST:A;*RST;BLK #11\n;A\n', ['6()', '1()', '8(bytes:0a)', '6()'])]
+    for text, log in msgs:
+        scheds = [[1] * len(text), []] + [[k, len(text)] for k in range(1, len(text))]
+        for sc in scheds:
+            out.append(Case(f'PROC echo 64 {hx(text)} {",".join(map(str, sc)) or "-"}', oracle, {'log': log, 'errs': [], 'kind': 'PROC-payload-path', 'units': 3}))
+        out.append(Case(f'RUN echo std {hx(text)}', oracle, {'log': log, 'errs': [], 'kind': 'RUN-payload-path', 'units': 3}))
     return out
 
 
